@@ -22,7 +22,7 @@ use crate::{
     sim::{Kind, Op, Sim},
 };
 
-const CUSTOM: [&str; 4] = ["reader_hist_small", "reader_hist_64k", "reader_search", "gzi_io"];
+const CUSTOM: [&str; 6] = ["reader_hist_small", "reader_hist_small_d4", "reader_hist_64k", "reader_search", "reader_search_64k", "gzi_io"];
 
 fn replay_custom(p: &vmc::serde_json::Value) -> vmc::Outcome {
     let sizes: Vec<usize> = p["sizes"]
@@ -152,13 +152,27 @@ fn main() {
                 "all histories of length <= 3 over all small-block files x {Reader, IndexedReader x gzi variant}",
             ));
             // E1 over the files with 64 KiB blocks (alphabet restricted to +-2 of block edges)
-            let deep = 2;
+            let deep = if quick { 2 } else { 3 };
             ctx.custom(e1::run(
                 "reader_hist_64k",
                 &big,
                 &|f: &TFile| if f.sizes.len() <= deep { 3 } else { 2 },
                 &format!("all histories of length <= 3 for files of <= {deep} blocks, <= 2 otherwise, over all files with a 65535/65536-byte block; seek targets and offsets within 2 of a block edge"),
             ));
+            if !quick {
+                // next bound: length 4 over the quick tier's small-block files
+                let q: Vec<Arc<TFile>> = small
+                    .iter()
+                    .filter(|f| f.sizes.len() <= 3 && f.sizes.iter().all(|s| [0, 1, 3].contains(s)))
+                    .cloned()
+                    .collect();
+                ctx.custom(e1::run(
+                    "reader_hist_small_d4",
+                    &q,
+                    &|_| 4,
+                    "all histories of length <= 4 over the small-block files of <= 3 blocks with sizes {0,1,3}",
+                ));
+            }
             // E2 on the small-block files
             let bound = if quick { 5 } else { 8 };
             ctx.custom(e2::run(
@@ -166,6 +180,15 @@ fn main() {
                 &small,
                 bound,
                 &format!("BFS over histories to fixpoint or depth {bound}; every merged arrival re-validated by executing all its one-op continuations"),
+            ));
+            // E2 on the shortest files with 64 KiB blocks as well
+            let nb = if quick { 1 } else { 2 };
+            let b: Vec<Arc<TFile>> = big.iter().filter(|f| f.sizes.len() <= nb).cloned().collect();
+            ctx.custom(e2::run(
+                "reader_search_64k",
+                &b,
+                bound,
+                &format!("as reader_search, over the files of <= {nb} blocks that contain a 65535/65536-byte block"),
             ));
         }
 
